@@ -38,3 +38,63 @@ Proof. exact accept_needs_equal_even. Qed.
 
 Theorem C02_fixed_cfg_is_safe : safe_cfg fixed_cfg = true /\ safe_cfg unfenced_cfg = false.
 Proof. split; vm_compute; reflexivity. Qed.
+
+(* ---------------------------------------------------------------------------------------------
+   The general theorem.  For every configuration that passes [safe_cfg] (a release fence or
+   equivalent after the odd store, Release on the final store, Acquire on the generation loads, an
+   acquire fence before the re-load, copy orders that are permutations), every number of cells,
+   every schedule of writer steps, reader steps with ANY choice of the event each load returns that
+   the release/acquire rules allow (sequential consistency is the special case "latest event"),
+   crashes of the writer at any access, restarts, new readers: every record a snapshot() call
+   returns - accepted afresh or served from the cache - is the all-zero initial record or,
+   cell for cell, the record of one write() call that completed (its even generation store is in
+   the log).  Side condition: fewer than 32767 write() calls in the run, so that the 16-bit
+   generation does not return to a value a reader may still hold (known finding C02-aba). *)
+From CB Require Import SeqlockInv SeqlockRA.
+
+Theorem C02_RA : forall c ts m o, safe_cfg c = true -> Forall real_token ts ->
+  m_run (m_init c) ts = (m, o) -> (Z.of_nat (m_nrec m) < 32767)%Z ->
+  forall j ret rec, In (ORet j ret rec) o -> ret <> RetErr ->
+    rec = repeat 0%Z (c_cells c) \/
+    exists a q e, (0 < a)%nat /\ ev (w_log (m_w m)) q = Some e /\ e_kind e = KEven /\ e_att e = a /\ rec = rec_of (c_cells c) a.
+Proof.
+  intros c ts m o Hs Hts R Hn j ret rec Hin Hne.
+  destruct (m_run_inv c Hs ts (m_init c) m o (MInv_init c) Hts R Hn) as (_ & _ & _ & H).
+  exact (H j ret rec Hin Hne).
+Qed.
+
+(* the invariant behind it holds in every reachable state *)
+Theorem C02_reachable_invariant : forall c ts m o, safe_cfg c = true -> Forall real_token ts ->
+  m_run (m_init c) ts = (m, o) -> (Z.of_nat (m_nrec m) < 32767)%Z -> MInv c m.
+Proof.
+  intros c ts m o Hs Hts R Hn. exact (proj1 (m_run_inv c Hs ts (m_init c) m o (MInv_init c) Hts R Hn)).
+Qed.
+
+(* one accepting step, in any state satisfying the invariants *)
+Theorem C02_accept_is_one_completed_write : forall c L r ch r' it,
+  safe_cfg c = true -> LogInv (c_cells c) L -> (Z.of_nat (evens L) < 32767)%Z -> RInv c L r ->
+  r_step c L r ch = Some (r', it, Some RetFresh) ->
+  exists a q e, (0 < a)%nat /\ ev L q = Some e /\ e_kind e = KEven /\ e_att e = a /\ r_cache r' = rec_of (c_cells c) a.
+Proof. exact r_step_accept. Qed.
+
+(* non-vacuity: the configuration measured from the code is safe, and a run with crashes, restarts
+   and two readers returns records 1 and 3 *)
+Example C02_example :
+  let ts := repeat TW 11 ++ [TNewReader] ++ repeat (TR 0 None) 11 ++ repeat TW 6 ++ [TCrash; TRestart; TNewReader] ++
+            repeat TW 11 ++ repeat (TR 1 None) 11 ++ repeat (TR 0 None) 11 in
+  Forall real_token ts /\ exists m o, m_run (m_init fixed_cfg) ts = (m, o) /\ (Z.of_nat (m_nrec m) < 32767)%Z /\
+    filter (fun x => match x with ORet _ _ _ => true | _ => false end) o =
+      [ORet 0 RetFresh (rec_of 7 1); ORet 1 RetFresh (rec_of 7 3); ORet 0 RetFresh (rec_of 7 3)].
+Proof.
+  split; [repeat constructor|]. eexists _, _. split; [vm_compute; reflexivity|]. split; vm_compute; reflexivity.
+Qed.
+
+(* Known finding C02-aba: the side condition of C02_RA is needed.  A reader suspended inside one
+   call while the 16-bit generation goes once around its cycle of 32767 even values accepts a
+   mixture.  [TJump 65534] stands for the 32765 publications that lead from generation 4 to 65534;
+   the next publication wraps to 2, the value the reader loaded first. *)
+Theorem C02_aba_witness :
+  let c := cfg2 (Some Rel) (Some Acq) in
+  let ts := repeat TW 6 ++ [TNewReader; TR 0 None; TR 0 None; TR 0 None] ++ [TJump 65534%Z] ++ repeat TW 6 ++ repeat (TR 0 None) 3 in
+  In (ORet 0 RetFresh [1000; 2001]%Z) (snd (m_run (m_init c) ts)).
+Proof. vm_compute. tauto. Qed.
